@@ -106,7 +106,7 @@ def gen_block(rng, depth, indent=""):
     return lines
 
 
-def gen_page(rng):
+def gen_page(rng, selfname=None):
     lines = []
     if rng.random() < 0.8:
         lines += ["Page title", "==========", ""]
@@ -114,6 +114,9 @@ def gen_page(rng):
         lines = [":orphan:", ""] + lines
     for _ in range(rng.randint(1, 6)):
         lines += gen_block(rng, 0)
+        if selfname and rng.random() < 0.15:
+            # a file that runs into its own include cycle more than once within one expansion
+            lines += [f".. include:: /{selfname}", ""]
     return "\n".join(lines) + "\n"
 
 
@@ -147,7 +150,7 @@ class C02(core.PropertyCheck):
             for k in range(rng.randint(0, 2)):
                 files[f"page{k + 1}.txt"] = gen_page(rng)
             for k in range(rng.randint(0, 2)):
-                files[f"includes/inc{k}.rst"] = gen_page(rng)
+                files[f"includes/inc{k}.rst"] = gen_page(rng, f"includes/inc{k}.rst")
             cfg = {}
             if rng.random() < 0.3:
                 cfg["default_domain"] = rng.choice(["mongodb", "std"])
